@@ -105,3 +105,37 @@ func HarnessC17FanIn() {
 	}
 	cancel()
 }
+
+// HarnessC17FanInTwo: a subscriber that hands over the next message of a source topic before the previous one
+// is settled (nothing forbids that): two messages of one topic are in flight through the FanIn router at once.
+// Each is relayed exactly once, intact, and both are acknowledged.
+func HarnessC17FanInTwo() {
+	m1, m2 := message.NewMessage("u1", message.Payload("p1")), message.NewMessage("u2", message.Payload("p2"))
+	sub := &fiSub{chans: map[string]chan *message.Message{}}
+	pub := &fiPub{consumed: m1}
+	fi, err := NewFanIn(sub, pub, Config{SourceTopics: []string{"src"}, TargetTopic: "target"}, watermill.NopLogger{})
+	vrt.Assert(err == nil, "fan-in created")
+	ctx, cancel := context.WithCancel(context.Background())
+	go func() {
+		vrt.MayBlock()
+		_ = fi.Run(ctx)
+	}()
+	<-fi.Running()
+	sub.chans["src"] <- m1
+	sub.chans["src"] <- m2
+	<-m1.Acked()
+	<-m2.Acked()
+	n1, n2 := 0, 0
+	for _, c := range pub.calls {
+		vrt.Assert(c.topic == "target" && len(c.msgs) == 1, "one message per publish call, to the target topic")
+		switch {
+		case c.msgs[0].UUID == "u1" && string(c.msgs[0].Payload) == "p1":
+			n1++
+		case c.msgs[0].UUID == "u2" && string(c.msgs[0].Payload) == "p2":
+			n2++
+		}
+	}
+	vrt.Assert(n1 == 1 && n2 == 1 && len(pub.calls) == 2, "each consumed message is relayed exactly once: none lost, none doubled")
+	vrt.Observe("calls", len(pub.calls))
+	cancel()
+}
